@@ -67,6 +67,8 @@ func c06RenderedOutsideFirst(res *Result) {
 		"filter": "<{{ x|spy }}>", "chain-first": "<{{ x|spy|upper }}>", "chain-middle": "<{{ x|upper|spy|upper }}>", "chain-last": "<{{ x|upper|spy }}>", "function": "<{{ spyfn(1) }}>",
 		"for-sequence": "{% for i in xs|spy %}{{ i }}{% endfor %}", "for-chain": "{% for i in xs|spy|reverse %}{{ i }}{% endfor %}", "apply": "{% apply spy %}a{% endapply %}",
 		"argument": "<{{ x|default(spyfn(2)) }}>", "set": "{% set y = x|spy|upper %}{{ y }}", "condition": "{% if x|spy|upper %}y{% endif %}", "nested": "{% include 'deeper' %}",
+		"apply-core": "{% apply striptags %}<b>Hello</b> world{% endapply %}", "apply-core-spaceless": "{% apply spaceless %}<a> <b>x</b> </a>{% endapply %}", "core-filter": "<{{ x|striptags }}>",
+		"core-chain": "<{{ x|upper|striptags|upper }}>", "core-function": "<{{ max(1, 2) }}>", "spaceless-tag": "{% spaceless %}<a> <b>x</b> </a>{% endspaceless %}",
 		"macro": "{% macro m(a) %}{{ a|spy|upper }}{% endmacro %}{{ m(x) }}", "test-operand": "{{ (x|spy|upper) is defined ? 'd' : 'u' }}", "ternary": "{{ x ? x|spy|upper : '' }}",
 	}
 	for name, src := range inner {
